@@ -1600,7 +1600,7 @@ class C18(Spec):
     level_text = ('weak statistical evidence by design: detects missing, reused or grossly short masks (mask shorter than '
                   'about log2(N) bits of the k required); it cannot certify statistical distance 2^-k, which would need far '
                   'more than 2^k samples')
-    quick = {'runs': 10800, 'wall': 85}
+    quick = {'runs': 11160, 'wall': 85}
     thorough = {'runs': 3000000, 'wall': 900}
     expected_probes = ('internal_openings', 'prss_evaluations')
     rule = ('one evaluation = one simulated 3..5-party run of a small template program (comparison, lsb, mod, to_bits, '
@@ -1640,6 +1640,8 @@ class C18(Spec):
         ('fld-recip-small', 'fld', {'p': 65537, 'd': 1, 'how': 'order'}, (5, 30000), [['reciprocal', ['r'], ['a'], {}]]),
         ('fld-recip-large', 'fld', {'p': (1 << 61) - 1, 'd': 1, 'how': 'order'}, (5, 1 << 60), [['reciprocal', ['r'], ['a'], {}]]),
         ('fxp-cmp', 'fxp', {'l': 24, 'f': 8}, ([3, 2], [524287, 16]), [['ltc', ['r'], ['a'], {'c': [0, 1]}]]),
+        # lsb of a fixed-point number with many fractional bits: the mask has to cover all l bits of the scaled value
+        ('fxp-lsb', 'fxp', {'l': 32, 'f': 24}, ([3, 2], [2040, 16]), [['lsb', ['r'], ['a'], {}]]),
         # the NumPy-array versions of the protocols have their own mask code (_np_randoms, np_pow with a public base)
         ('np-pow-pub', 'np', {'kind': 'int', 'l': 32}, (1, 30), [['rpow_pub', 'r', ['a'], {'base': 2}]]),
         ('np-sgn', 'np', {'kind': 'int', 'l': 16}, (1, 32767), [['ltc', 'r', ['a'], {'c': 0}]]),
